@@ -287,6 +287,20 @@ impl<'t, 'd> Pr<'t, 'd> {
         }
     }
 
+    /// a line comment on a line of its own, in front of the statement that is about to be written
+    /// (it becomes leading trivia of that statement's first token); no-op without a layout
+    pub fn own_line_comment(&mut self) {
+        if !self.active() || self.last == 0 {
+            return;
+        }
+        if !self.lay.as_ref().map(|l| l.opts.comments).unwrap_or(false) {
+            return;
+        }
+        self.nl();
+        self.put_indent(0);
+        self.line_comment();
+    }
+
     /// `-- text` ; the caller must emit a line end right after
     fn line_comment(&mut self) {
         let mut text = COMMENT_POOL[self.tc(COMMENT_POOL.len())];
@@ -419,7 +433,7 @@ impl<'t, 'd> Pr<'t, 'd> {
             // first token of the file is handled by G::First
             return;
         }
-        if !self.tb(44) {
+        if !self.tb(56) {
             self.nl();
             self.put_indent(0);
             return;
@@ -430,7 +444,7 @@ impl<'t, 'd> Pr<'t, 'd> {
         };
         let w = [
             if blank { 50 } else { 0 },     // blank line(s)
-            if comments { 40 } else { 0 },  // own-line comment(s)
+            if comments { 60 } else { 0 },  // own-line comment(s)
             if comments { 30 } else { 0 },  // trailing comment on the previous line
             if multiline { 30 } else { 0 }, // same line
             12,                             // odd indentation
